@@ -4,6 +4,7 @@ import (
 	"bytes"
 	"crypto"
 	"crypto/ecdsa"
+	"crypto/elliptic"
 	"encoding/asn1"
 	"errors"
 	"fmt"
@@ -30,7 +31,15 @@ type c16Case struct {
 	K     rc.Hex `json:"k,omitempty"` // nonce (verify-forms): r = (k*G).x mod n
 	Msg   rc.Hex `json:"msg,omitempty"`
 	Want  string `json:"want,omitempty"` // native-sign: class to wait for
+	// Wrapped: the key names its curve through a wrapper type around the standard
+	// curve (same parameters, different interface value), as keys from a provider
+	// or a test double do. Signing only: NewVerifier refuses such keys (crypto/ecdh).
+	Wrapped bool `json:"wrapped,omitempty"`
 }
+
+// wrappedCurve has the parameters and arithmetic of the curve it embeds but is not
+// the singleton value elliptic.P256() etc.
+type wrappedCurve struct{ elliptic.Curve }
 
 func c16Key(c *c16Case) *ecdsa.PrivateKey {
 	curve := curveOf(c.Curve)
@@ -41,6 +50,9 @@ func c16Key(c *c16Case) *ecdsa.PrivateKey {
 	buf := make([]byte, (curve.Params().BitSize+7)/8)
 	d.FillBytes(buf)
 	x, y := curve.ScalarBaseMult(buf)
+	if c.Wrapped {
+		curve = wrappedCurve{curve}
+	}
 	return &ecdsa.PrivateKey{PublicKey: ecdsa.PublicKey{Curve: curve, X: x, Y: y}, D: d}
 }
 
@@ -105,6 +117,12 @@ func checkC16(c c16Case) error {
 				return finding("not-fixed-width", "crypto.Signer path: signature is not leftpad(r)||leftpad(s)\n got=%x (%d bytes)\nwant=%x (%d bytes)", o, len(o), want, 2*n)
 			}
 		}
+		if c.Wrapped {
+			stats.Class("stub/wrapped-curve-value")
+		}
+		if len(der) == 2*n {
+			stats.Class("stub/asn1-length-equals-fixed-width")
+		}
 		if !tooBig {
 			stats.Class("stub/r-zeros=" + rsClass(n, r))
 			stats.Class("stub/s-zeros=" + rsClass(n, s))
@@ -151,7 +169,9 @@ func checkC16(c c16Case) error {
 				if err != nil || !bytes.Equal(sig2, sig) {
 					return finding("paths-incompatible", "native and crypto.Signer paths disagree for the same (r, s) (err=%v)\nnative=%x\n  stub=%x", err, sig, sig2)
 				}
-				ver, err := cose.NewVerifier(alg, &priv.PublicKey)
+				vpub := priv.PublicKey
+				vpub.Curve = curveOf(c.Curve)
+				ver, err := cose.NewVerifier(alg, &vpub)
 				if err != nil {
 					return finding("newverifier", "%v", err)
 				}
@@ -164,6 +184,9 @@ func checkC16(c c16Case) error {
 				}
 			}
 			stats.Class("native/signed")
+		}
+		if c.Wrapped {
+			stats.Class("native/wrapped-curve-value")
 		}
 		if !hit {
 			stats.Class("native/class-not-reached")
@@ -308,9 +331,32 @@ func genC16Case(t *rapid.T) c16Case {
 		c.Alg = rapid.SampledFrom([]int64{refcose.AlgES256, refcose.AlgES384, refcose.AlgES512}).Draw(t, "alg")
 	}
 	order := curveOf(c.Curve).Params().N
+	if c.Mode != "verify-forms" {
+		c.Wrapped = rapid.IntRange(0, 3).Draw(t, "wrapped") == 0
+	}
 	switch c.Mode {
 	case "stub-sign":
 		c.R, c.S = drawRS(t, "r", order).Bytes(), drawRS(t, "s", order).Bytes()
+		if rapid.IntRange(0, 5).Draw(t, "asn1-len") == 0 {
+			// (r, s) short enough that their ASN.1 form is exactly as long as the fixed-width form
+			n := (order.BitLen() + 7) / 8
+			lr := rapid.IntRange(n-9, n-1).Draw(t, "lr")
+			short := func(l int, label string) []byte {
+				b := rapid.SliceOfN(rapid.Byte(), l, l).Draw(t, label)
+				b[0] = b[0]&0x7f | 1
+				return b
+			}
+			r := short(lr, "r-short")
+			for ls := 1; ls <= n; ls++ {
+				sb := make([]byte, ls)
+				sb[0] = 1
+				der, _ := asn1.Marshal(struct{ R, S *big.Int }{new(big.Int).SetBytes(r), new(big.Int).SetBytes(sb)})
+				if len(der) == 2*n {
+					c.R, c.S = r, short(ls, "s-short")
+					break
+				}
+			}
+		}
 		if rapid.IntRange(0, 19).Draw(t, "oversized") == 0 {
 			big := make([]byte, (order.BitLen()+7)/8+1)
 			big[0] = 1
